@@ -9,7 +9,13 @@ reductions and nothing else, reduce_only_state iff all non-error actions
 reduce one and the same class (at least one), every state reachable from the
 start state, closed(s) = the declaratively defined LR(1) closure of core(s)
 (FIRST by derivations; the proved-exact first_ref computes it).  The row
-clauses are decided exactly (row_checks_reflect, targets_reflect).  About the
+clauses are decided exactly (row_checks_reflect, targets_reflect), and so are
+the two graph clauses and the whole checker (theories/C16/Exact*.v:
+all_reachable_b_reflects — the iteration saturates within nstates rounds;
+lr1_closure_exact / closure_b_reflects — the fuel of the reference closure is
+enough; coherent_b_exact, coherent_b_exact_dump) for dumps meeting wf_grammar,
+vS1, vS5, edges only on the grammar's symbols, core lookaheads within the
+tokens — conditions the model evaluates on every dump (`K exact=`).  About the
 code: the views StateTable::new computes from the FINAL cells are coherent for
 any cells (views_from_final_cells_coherent); state_actions — bits set while
 cells are first written — lists exactly the non-error cells PLUS the cells a
@@ -281,7 +287,7 @@ def run(ctx):
     srcs = [g.render() for g in grams]
     impl = core.run_lines([exe], [dump_case(s, k) for s, k in zip(srcs, kinds)])
     model = core.run_lines([mexe], impl)
-    tot_states = tot_cells = n_known = n_erased_cells = n_last_reduced = n_added_reduced = 0
+    tot_states = tot_cells = n_known = n_erased_cells = n_last_reduced = n_added_reduced = n_exact = n_dumps = 0
     for g, fam, src, kind, il, ml in zip(grams, fams, srcs, kinds, impl, model):
         ctx.count("family_" + fam)
         d = TDump(il)
@@ -299,9 +305,16 @@ def run(ctx):
         ms = model_sections(ml)
         k = dict(kv.split("=") for kv in ms["K"][0])
         coherent = k["coherent"] == "1"
+        # hypotheses of C16_coherent_b_exact_dump evaluated by the model on this dump (wf_grammar, vS1, vS5, edges only on
+        # the grammar's symbols, core lookaheads within the tokens): where they hold, coherent_b = coherent is a theorem
+        exact = k.get("exact") == "1"
+        n_exact += exact
+        if not exact:
+            ctx.count("exactness_hypotheses_do_not_hold")
         erased = set((int(s[0]), int(s[1])) for s in ms.get("NE", []))
         n_erased_cells += len(erased)
         tot_states += d.nstates
+        n_dumps += 1
         tot_cells += d.nstates * (d.ntoks + d.nrules)
         bad = oracle(d)
         ok = True
@@ -312,7 +325,10 @@ def run(ctx):
         elif not coherent and not bad:
             ok = False
             ctx.violation({"what": "coherent_b rejects the dump but the independent re-computation finds no clause violated "
-                                   "(coherent_b_sound does not apply; reach/closure clauses are only sound, not complete)",
+                                   "(%s)" % ("the hypotheses of C16_coherent_b_exact_dump hold of this dump, so the property FAILS of it by theorem: "
+                                            "the Python re-computation misses a violated clause" if exact else
+                                            "the hypotheses of C16_coherent_b_exact_dump do not hold of this dump: the exactness "
+                                            "theorem does not apply, only coherent_b_sound"),
                            "grammar": src, "kind": kind, "model": " | ".join(" ".join(x) for x in ms.get("RB", []))[:300], "K": k}, no_input=True)
         elif bad:
             ok = False
@@ -382,6 +398,7 @@ def run(ctx):
     ctx.coverage["state_x_symbol_pairs_checked"] = tot_cells
     ctx.coverage["nonassoc_erased_cells_seen"] = n_erased_cells
     ctx.coverage["known_defect_tables"] = n_known
+    ctx.coverage["dumps_where_the_exactness_theorem_applies"] = "%d of %d" % (n_exact, n_dumps)
     ctx.coverage["tables_reducing_the_grammars_last_production"] = n_last_reduced
     ctx.coverage["tables_reducing_a_production_numbered_after_the_start_production"] = n_added_reduced
     ctx.coverage["rule"] = ("grammars as for C03 (gen/c03gen.py: precedence-resolved and %nonassoc-removed entries so that resolution "
@@ -394,6 +411,8 @@ def run(ctx):
                         "distinct_reduces == 1",
                         "goto clause: every goto target equals the graph's edge on that rule (a missing goto for an existing edge is "
                         "C01's completeness condition vC3, not demanded here)",
-                        "reach / closure clauses of coherent_b are proved sound; their completeness is covered by the independent "
-                        "Python re-computation (a rejected dump without a concrete violated clause is reported as correspondence-only)",
+                        "coherent_b is proved EXACT (C16_coherent_b_exact / _exact_dump: accepted <-> coherent) for dumps meeting "
+                        "wf_grammar, vS1, vS5, edges only on the grammar's symbols and core lookaheads within the tokens; the model "
+                        "evaluates these on every dump (K exact=) and the coverage reports for how many they hold; the independent "
+                        "Python re-computation remains as a cross-check of both directions",
                         "views are observed through state_actions / state_shifts / core_reduces / reduce_only_state only"]
